@@ -94,5 +94,5 @@ SNI(crtlist, name0) ==
 ExpectedCert(g, sc, sni) ==
     LET h == IF sni.name \in TLSHosts(g) THEN sni.name ELSE IF sni.wild # "" /\ sni.wild \in TLSHosts(g) THEN sni.wild ELSE "" IN
     IF h = "" THEN "default"
-    ELSE LET c == TmplSecret(g[TLSOwner(g, h)], h) IN IF sc[c] \in {"v1", "v2"} THEN c ELSE "default"
+    ELSE LET c == TmplSecret(g[TLSOwner(g, h)], h) IN IF sc[c] \in ValidSec THEN c ELSE "default"
 =============================================================================
